@@ -705,7 +705,7 @@ _C01_MODELS = [  # (MC module, cfg, emits?)
     ("MC_StripTrim", "StripTrim.c01.cfg"), ("MC_CStr", "CStr.quick.cfg"), ("MC_Chars", "Chars.c01.cfg"),
     ("MC_SliceIter", "SliceIter.c01.cfg"), ("MC_Split", "Split.c01.cfg"), ("MC_Parser", "Parser.c01.cfg"),
     ("MC_Ownership", "Ownership.n2.cfg"), ("MC_Cmp", "Cmp.c01.cfg"), ("MC_ParseInt", "ParseInt.c01.cfg"),
-    ("MC_RangeIter", "RangeIter.char.cfg"),
+    ("MC_RangeIter", "RangeIter.char.cfg"), ("MC_Mem", "Mem.n2.cfg"),
 ]
 
 
